@@ -236,12 +236,12 @@ N_REQ_LINES_QUICK = 13
 
 RESP_LINES = [
     b"Content-Length: 3", b"Content-Length: 5", b"Transfer-Encoding: chunked", b"Transfer-Encoding: gzip",
-    b"X-Fold: a\r\n b", b"X-Cr: a\rContent-Length: 0", b"Connection: close",
+    b"X-Fold: a\r\n b", b"X-Cr: a\rContent-Length: 0", b"Connection: close", b"Transfer-Encoding: Chunked",  # coding names are case-insensitive
     # thorough only:
     b"Content-Length: 03", b"Content-Length: 3, 3", b"Content-Length : 3", b"Transfer-Encoding: gzip, chunked", b"Transfer-Encoding: chunked, gzip",
     b"Transfer-Encoding: xchunked", b"X-Other: v",
 ]
-N_RESP_LINES_QUICK = 7
+N_RESP_LINES_QUICK = 8
 
 BODY_KINDS_QUICK = ["none", "raw3", "chunk1", "chunk-split", "chunk-trailer", "raw5"]
 BODY_KINDS = BODY_KINDS_QUICK + ["chunk-ext", "chunk-hex", "chunk-barelf", "chunk-badterm", "chunk-lead0", "chunk3"]
